@@ -39,6 +39,8 @@ func project(raw []kit.M) []kit.M {
 			case "hdr", "chunk", "result", "split":
 				out = append(out, kit.M{"ev": "Data", "a": e["kind"]})
 			}
+		case "Flip":
+			out = append(out, kit.M{"ev": "Flip"})
 		case "Reply":
 			out = append(out, kit.M{"ev": "Reply", "code": e["code"], "grpc": e["grpc"]})
 		default:
@@ -97,6 +99,8 @@ func flagsOf(m string) []string {
 		return []string{"raw", "main_only", "raw+main_only"}
 	case "GetRange":
 		return []string{"raw"}
+	case "SearchV2":
+		return []string{"q_attr", "q_notpresent", "q_numgt"}
 	}
 	return nil
 }
@@ -136,6 +140,19 @@ func validScenarios(m string, thorough bool) []Class {
 		for _, sc := range [][3]any{{"pub", "local", 1}, {"pub", "remote", 2}, {"allowhdr", "remote", 2}, {"allowhdr", "late", 1}} {
 			c := valid(sc[0].(string), sc[1].(string), "other", sc[2].(int), "none")
 			c.Flags = fl
+			out = append(out, c)
+		}
+	}
+	// PUT: maintenance switched on in mid-stream (heading accepted before, a later message arrives under maintenance)
+	if m == "Put" {
+		for _, at := range []string{"chunk1", "chunk2"} {
+			for _, ttl := range []int{1, 2} {
+				c := valid("pub", "local", "other", ttl, "none")
+				c.MaintAt = at
+				out = append(out, c)
+			}
+			c := valid("priv", "local", "owner", 1, "none")
+			c.MaintAt = at
 			out = append(out, c)
 		}
 	}
@@ -259,7 +276,10 @@ func cmdObj(mode, tracePath, callsPath string) {
 		vs := validScenarios(m, thorough)
 		for _, c := range vs {
 			c = truth(m, c)
-			calls = append(calls, callSpec{m, c}) // control: maintenance off
+			calls = append(calls, callSpec{m, c}) // control: maintenance off (or switched on in mid-stream)
+			if c.MaintAt != "" {
+				continue
+			}
 			c.Maint = true
 			calls = append(calls, callSpec{m, c})
 		}
